@@ -1,0 +1,12 @@
+//go:build verif
+
+package dcmd
+
+// Machine-checked contracts for /verif (gowp). Comment-only file: it adds no code.
+
+// C18: the start-up script is the prologue followed, per variable, by exactly the quoted
+// here-document fragment envSeg(key, value, tag) (spec/shell.spec).
+//@ func InitSequence [C18]
+//@   layers contract
+//@   loop 1 invariant hasprefix(eofTag, "EOF")
+//@   loop 1 step initCode == cat(prev(initCode), envSeg($k, $v, eofTag))
